@@ -26,7 +26,136 @@ pub enum Bit {
     O,
     /// (symbol, bit index, negated)
     S(u32, u16, bool),
+    /// a boolean function of two or three input bits (exact truth table)
+    F(BFun),
     T,
+}
+
+/// truth table over `n` (2..=3) distinct input bits, sorted; entry i of `tt` is the value for the
+/// assignment whose j-th variable is bit j of i.  Canonical: every variable is essential.
+#[derive(Clone, Copy, PartialEq, Eq, Debug)]
+pub struct BFun {
+    pub n: u8,
+    pub vars: [(u32, u16); 3],
+    pub tt: u8,
+}
+
+fn bit_vars(b: Bit, out: &mut Vec<(u32, u16)>) {
+    match b {
+        Bit::S(s, k, _) => {
+            if !out.contains(&(s, k)) {
+                out.push((s, k));
+            }
+        }
+        Bit::F(f) => {
+            for i in 0..f.n as usize {
+                if !out.contains(&f.vars[i]) {
+                    out.push(f.vars[i]);
+                }
+            }
+        }
+        _ => {}
+    }
+}
+
+fn bit_eval(b: Bit, vars: &[(u32, u16)], asg: usize) -> bool {
+    let val = |v: (u32, u16)| -> bool {
+        let i = vars.iter().position(|x| *x == v).unwrap();
+        (asg >> i) & 1 == 1
+    };
+    match b {
+        Bit::Z => false,
+        Bit::O => true,
+        Bit::S(s, k, n) => val((s, k)) != n,
+        Bit::F(f) => {
+            let mut idx = 0;
+            for i in 0..f.n as usize {
+                if val(f.vars[i]) {
+                    idx |= 1 << i;
+                }
+            }
+            (f.tt >> idx) & 1 == 1
+        }
+        Bit::T => false,
+    }
+}
+
+/// canonical bit for the function given by `tt` over `vars` (at most 3)
+fn bit_from_tt(vars: &[(u32, u16)], tt: u8) -> Bit {
+    // drop variables the function does not depend on
+    let n = vars.len();
+    let mut keep: Vec<usize> = Vec::new();
+    for i in 0..n {
+        let mut essential = false;
+        for a in 0..(1usize << n) {
+            if (a >> i) & 1 == 0 {
+                let b = a | (1 << i);
+                if ((tt >> a) & 1) != ((tt >> b) & 1) {
+                    essential = true;
+                    break;
+                }
+            }
+        }
+        if essential {
+            keep.push(i);
+        }
+    }
+    let mut kv: Vec<(u32, u16)> = keep.iter().map(|i| vars[*i]).collect();
+    let order: Vec<(u32, u16)> = {
+        kv.sort();
+        kv.clone()
+    };
+    let m = order.len();
+    let mut ntt: u8 = 0;
+    for a in 0..(1usize << m) {
+        // build an assignment of the original variables (dropped ones = 0)
+        let mut orig = 0usize;
+        for (j, v) in order.iter().enumerate() {
+            if (a >> j) & 1 == 1 {
+                let oi = vars.iter().position(|x| x == v).unwrap();
+                orig |= 1 << oi;
+            }
+        }
+        if (tt >> orig) & 1 == 1 {
+            ntt |= 1 << a;
+        }
+    }
+    match m {
+        0 => {
+            if ntt & 1 == 1 {
+                Bit::O
+            } else {
+                Bit::Z
+            }
+        }
+        1 => Bit::S(order[0].0, order[0].1, ntt == 0b01),
+        _ => {
+            let mut vs = [(0u32, 0u16); 3];
+            for (j, v) in order.iter().enumerate() {
+                vs[j] = *v;
+            }
+            Bit::F(BFun { n: m as u8, vars: vs, tt: ntt })
+        }
+    }
+}
+
+fn bit_apply2(a: Bit, b: Bit, op: fn(bool, bool) -> bool) -> Bit {
+    if a == Bit::T || b == Bit::T {
+        return Bit::T;
+    }
+    let mut vars: Vec<(u32, u16)> = Vec::new();
+    bit_vars(a, &mut vars);
+    bit_vars(b, &mut vars);
+    if vars.len() > 3 {
+        return Bit::T;
+    }
+    let mut tt: u8 = 0;
+    for asg in 0..(1usize << vars.len()) {
+        if op(bit_eval(a, &vars, asg), bit_eval(b, &vars, asg)) {
+            tt |= 1 << asg;
+        }
+    }
+    bit_from_tt(&vars, tt)
 }
 
 impl Bit {
@@ -35,6 +164,10 @@ impl Bit {
             Bit::Z => Bit::O,
             Bit::O => Bit::Z,
             Bit::S(s, k, n) => Bit::S(s, k, !n),
+            Bit::F(f) => {
+                let m = (1u16 << (1 << f.n)) - 1;
+                Bit::F(BFun { n: f.n, vars: f.vars, tt: (!f.tt) & (m as u8) })
+            }
             Bit::T => Bit::T,
         }
     }
@@ -42,43 +175,28 @@ impl Bit {
         match (self, o) {
             (Bit::Z, _) | (_, Bit::Z) => Bit::Z,
             (Bit::O, x) | (x, Bit::O) => x,
-            (Bit::S(a, b, n), Bit::S(c, d, m)) if a == c && b == d => {
-                if n == m {
-                    self
-                } else {
-                    Bit::Z
-                }
-            }
-            _ => Bit::T,
+            _ => bit_apply2(self, o, |x, y| x & y),
         }
     }
     fn or(self, o: Bit) -> Bit {
         match (self, o) {
             (Bit::O, _) | (_, Bit::O) => Bit::O,
             (Bit::Z, x) | (x, Bit::Z) => x,
-            (Bit::S(a, b, n), Bit::S(c, d, m)) if a == c && b == d => {
-                if n == m {
-                    self
-                } else {
-                    Bit::O
-                }
-            }
-            _ => Bit::T,
+            _ => bit_apply2(self, o, |x, y| x | y),
         }
     }
     fn xor(self, o: Bit) -> Bit {
         match (self, o) {
             (Bit::Z, x) | (x, Bit::Z) => x,
             (Bit::O, x) | (x, Bit::O) => x.not(),
-            (Bit::S(a, b, n), Bit::S(c, d, m)) if a == c && b == d => {
-                if n == m {
-                    Bit::Z
-                } else {
-                    Bit::O
-                }
-            }
-            _ => Bit::T,
+            _ => bit_apply2(self, o, |x, y| x ^ y),
         }
+    }
+    fn mux(c: Bit, on: Bit, off: Bit) -> Bit {
+        if on == off {
+            return on;
+        }
+        c.and(on).or(c.not().and(off))
     }
     fn is_const(self) -> bool {
         matches!(self, Bit::Z | Bit::O)
@@ -406,6 +524,11 @@ impl<'tcx> Interp<'tcx> {
                     }
                     format!("{}{}@{}", if n { "~" } else { "" }, st.syms[s as usize], k)
                 }
+                Bit::F(f) => {
+                    let vs: Vec<String> =
+                        (0..f.n as usize).map(|q| format!("{}@{}", st.syms[f.vars[q].0 as usize], f.vars[q].1)).collect();
+                    format!("F[{:02x};{}]", f.tt, vs.join(";"))
+                }
             };
             if !out.is_empty() {
                 out.push(',');
@@ -703,27 +826,32 @@ impl<'tcx> Interp<'tcx> {
     }
 
     fn cmp_eq(a: &[Bit], b: &[Bit]) -> Bit {
-        let mut unknown: Option<Bit> = None;
+        // conjunction of per-bit equalities; exact while at most three input bits are involved
+        let mut acc = Bit::O;
+        let mut unknown = false;
         for (x, y) in a.iter().zip(b.iter()) {
-            match (*x, *y) {
-                (Bit::Z, Bit::Z) | (Bit::O, Bit::O) => {}
-                (Bit::Z, Bit::O) | (Bit::O, Bit::Z) => return Bit::Z,
-                (Bit::S(s, k, n), Bit::S(t, l, m)) if s == t && k == l => {
-                    if n != m {
-                        return Bit::Z;
-                    }
-                }
-                (Bit::S(s, k, n), c) | (c, Bit::S(s, k, n)) if c.is_const() => {
-                    if unknown.is_some() {
-                        return Bit::T;
-                    }
-                    // equal iff src == c
-                    unknown = Some(if c == Bit::O { Bit::S(s, k, n) } else { Bit::S(s, k, !n) });
-                }
-                _ => return Bit::T,
+            let e = x.xor(*y).not();
+            if e == Bit::Z {
+                return Bit::Z;
+            }
+            if e == Bit::T {
+                unknown = true;
+                continue;
+            }
+            acc = acc.and(e);
+            if acc == Bit::Z {
+                return Bit::Z;
+            }
+            if acc == Bit::T {
+                unknown = true;
+                acc = Bit::O;
             }
         }
-        unknown.unwrap_or(Bit::O)
+        if unknown {
+            Bit::T
+        } else {
+            acc
+        }
     }
 
     fn binop(&self, op: BinOp, l: &Val, r: &Val, lty: Ty<'tcx>) -> Val {
@@ -1230,17 +1358,7 @@ impl<'tcx> Interp<'tcx> {
                 bits: x
                     .iter()
                     .zip(y.iter())
-                    .map(|(p, q)| {
-                        if p == q {
-                            *p
-                        } else if *p == Bit::O && *q == Bit::Z {
-                            c
-                        } else if *p == Bit::Z && *q == Bit::O {
-                            c.not()
-                        } else {
-                            Bit::T
-                        }
-                    })
+                    .map(|(p, q)| Bit::mux(c, *p, *q))
                     .collect(),
             },
             (Val::Struct(x), Val::Struct(y)) if x.len() == y.len() => {
